@@ -80,6 +80,10 @@ theorem hdiv_def (l : List Rat) (x : Rat) : (l / x : List Rat) = l.map (· / x) 
 @[simp] theorem int_add_int (a b : Int) : (PyVal.int a + PyVal.int b : PyVal) = .int (a + b) := rfl
 @[simp] theorem int_sub_int (a b : Int) : (PyVal.int a - PyVal.int b : PyVal) = .int (a - b) := rfl
 
+/-- a conditional expression choosing between two python ints is a python int -/
+theorem ite_int (c : Prop) [Decidable c] (a b : Int) :
+    (if c then PyVal.int a else PyVal.int b) = PyVal.int (if c then a else b) := by split <;> rfl
+
 /-- `np.sum([f(x) for x in l])` counts -/
 theorem npSumBools_map {α : Type} (f : α → Bool) (l : List α) :
     PyVal.npSumBools (l.map f) = .npint ((l.filter f).length : Nat) := by
@@ -229,15 +233,15 @@ theorem genOrthoAgainst_eq (fl : Fl) (s : St) (lm : Other) :
     genOrthoAgainst fl s lm = s.orthoAgainst lm.d lm.k1 := by
   have hQ : St.orthoQRows lm.d lm.k1 s.rows ≤ lm.k1 + s.rows := by simp only [St.orthoQRows]; omega
   simp only [genOrthoAgainst, St.orthoAgainst, genSetComponents_eq, setComponentsRows, Other.setComponentsRows,
-    genTrimComponents_int, genSetActive_int, genNActiveComponents_eq, genNComponents_eq,
-    int_sub_int, toNat_int_nat, Except.bind, St.orthoAvail, St.orthoSavedActive]
+    genNActiveComponents_eq, genNComponents_eq, int_sub_int, ite_int, genTrimComponents_int, genSetActive_int,
+    toNat_int_nat, Except.bind, St.orthoAvail, St.orthoSavedActive]
   by_cases h1 : St.orthoQRows lm.d lm.k1 s.rows < lm.k1
   · have : ¬ (lm.k1.min (St.orthoQRows lm.d lm.k1 s.rows) = lm.k1) := by simp [Nat.min_def]; omega
     simp [h1, this]
   · have e : ((St.orthoQRows lm.d lm.k1 s.rows : Int) - (lm.k1 : Int))
         = ((St.orthoQRows lm.d lm.k1 s.rows - lm.k1 : Nat) : Int) := by omega
     have e2 : lm.k1.min (St.orthoQRows lm.d lm.k1 s.rows) = lm.k1 := by simp [Nat.min_def]; omega
-    simp only [e, e2, h1, int_lt_int, Nat.cast_lt, if_true, if_false, decide_eq_true_eq, lt_irrefl]
+    simp only [e, e2, h1, int_lt_int, ← Nat.cast_ite, Nat.cast_lt, if_true, if_false, decide_eq_true_eq, lt_irrefl]
     by_cases h2 : St.orthoQRows lm.d lm.k1 s.rows - lm.k1 < s.rows
     · simp only [h2, if_true]
       cases htrim : s.trim (some (Val.int ((St.orthoQRows lm.d lm.k1 s.rows - lm.k1 : Nat) : Int))) with
